@@ -272,7 +272,8 @@ func c05check(run *vlab.Run, frame []byte, w *c05want, r c05req, st *c05stats) {
 
 // c05tcpOptions: MSS 1460, SACK permitted, window scale 7, padded with NOP/EOL only.
 func c05tcpOptions(o []byte) string {
-	var mss, sack, ws bool
+	// well-formedness only: which options a SYN carries (today MSS 1460, SACK-permitted, WS 7) is not
+	// part of the statement
 	for i := 0; i < len(o); {
 		switch o[i] {
 		case 0: // EOL: rest must be zero padding
@@ -288,22 +289,8 @@ func c05tcpOptions(o []byte) string {
 			if i+1 >= len(o) || int(o[i+1]) < 2 || i+int(o[i+1]) > len(o) {
 				return "malformed option length"
 			}
-			l := int(o[i+1])
-			switch o[i] {
-			case 2:
-				mss = l == 4 && o[i+2] == 0x05 && o[i+3] == 0xb4
-			case 4:
-				sack = l == 2
-			case 3:
-				ws = l == 3 && o[i+2] == 7
-			default:
-				return fmt.Sprintf("unexpected option kind %d", o[i])
-			}
-			i += l
+			i += int(o[i+1])
 		}
-	}
-	if !mss || !sack || !ws {
-		return fmt.Sprintf("options do not carry MSS 1460 / SACK-permitted / WS 7 (mss=%v sack=%v ws=%v)", mss, sack, ws)
 	}
 	if len(o)%4 != 0 {
 		return "options not padded to 32 bits"
